@@ -14,8 +14,12 @@ NonInterference ==
   /\ LadderCT(s1[2]) = LadderCT(s2[2])
   /\ SubCT(Val4(s1[2]), 7) = SubCT(Val4(s2[2]), 7)
   /\ CondNegCT(s1[2][1] = 1) = CondNegCT(s2[2][1] = 1)
+  /\ SqrtRatioCT(Val4(s1[2]), s1[2][1]) = SqrtRatioCT(Val4(s2[2]), s2[2][1])
+  /\ BatchInvCT(s1[2]) = BatchInvCT(s2[2])
 LeakySelect == SelectLeaky(s1[1]) = SelectLeaky(s2[1])
 LeakyNaf == NafObs(s1[2]) = NafObs(s2[2])
 LeakyLadder == LadderLeaky(s1[2]) = LadderLeaky(s2[2])
 LeakySub == SubLeaky(Val4(s1[2]), 7) = SubLeaky(Val4(s2[2]), 7)
+LeakySqrt == SqrtRatioLeaky(Val4(s1[2]), s1[2][1]) = SqrtRatioLeaky(Val4(s2[2]), s2[2][1])
+LeakyBatchInv == BatchInvLeaky(s1[2]) = BatchInvLeaky(s2[2])
 =============================================================================
